@@ -916,7 +916,10 @@ def _render_context(tmpl, callable_, context, *args, **kwargs):
     else:
         # otherwise, call the actual rendering method specified
         inherit, lclcontext = _populate_self_namespace(context, tmpl.parent)
-        _exec_template(callable_, context, args=args, kwargs=kwargs)
+        result = _exec_template(callable_, context, args=args, kwargs=kwargs)
+        if result:
+            # a buffered def returns its text instead of writing it
+            context.write(result)
 
 
 def _exec_template(callable_, context, args=None, kwargs=None):
@@ -932,14 +935,14 @@ def _exec_template(callable_, context, args=None, kwargs=None):
         template.format_exceptions or template.error_handler
     ):
         try:
-            callable_(context, *args, **kwargs)
+            return callable_(context, *args, **kwargs)
         except Exception:
             _render_error(template, context, compat.exception_as())
         except:
             e = sys.exc_info()[0]
             _render_error(template, context, e)
     else:
-        callable_(context, *args, **kwargs)
+        return callable_(context, *args, **kwargs)
 
 
 def _render_error(template, context, error):
